@@ -12,7 +12,7 @@ From Coq Require Import Ascii String List Bool Arith ZArith NArith.
 From PTBase Require Import Exn PyStr.
 From PTBase Require Import PyNum PyVal.
 From PTModel Require Import Fortran.
-From P Require Import ListingHistory HistoryFuel HistorySpec HistoryProofs HistoryRows LineCells HistoryValues HistoryShape.
+From P Require Import ListingHistory HistoryFuel HistorySpec HistoryProofs HistoryRows LineCells HistoryValues HistoryShape HistoryTimes.
 Import ListNotations.
 Open Scope nat_scope.
 
@@ -288,3 +288,26 @@ Theorem example_single_item_same_entry : exists l1 l3 s1 s3 e,
   nth_error sel_aut 1 = Some it_e /\ nth_error l1 0 = Some (Some e) /\ nth_error l3 1 = Some (Some e).
 Proof. exact example_single. Qed.
 Print Assumptions example_single_item_same_entry.
+
+(** ** which result sets an item is read at, and which time array it gets, in closed form (HistoryTimes.v) *)
+(** [in_short F short c]: short output is asked for, the item's table kind is printed short and its row is one of
+    the rows printed there.  For EVERY file, flag and item (no hypothesis): the positions the item's values are
+    read at are all result sets if [in_short], exactly the full-output sets otherwise; an item not shown by short
+    sets is paired with [fulltimes]; one that is, in a file that has short sets, with [times] *)
+Theorem history_times_array_choice : forall F short c,
+  map l_pos (s_at (stepping_series F short c)) = positions (negb (in_short F short c)) (hsets F) 0 /\
+  (in_short F short c = false -> s_times (stepping_series F short c) = TFull) /\
+  (in_short F short c = true -> existsb pshort (hsets F) = true -> s_times (stepping_series F short c) = TAll).
+Proof. exact times_choice. Qed.
+Print Assumptions history_times_array_choice.
+
+(** with short = False every item is read at exactly the full-output result sets and paired with fulltimes *)
+Theorem history_short_false_reads_full_sets : forall F c,
+  map l_pos (s_at (stepping_series F false c)) = times_positions F TFull /\ s_times (stepping_series F false c) = TFull.
+Proof. exact short_false_full. Qed.
+Print Assumptions history_short_false_reads_full_sets.
+
+Theorem example_times_array_choice : existsb pshort (hsets F_aut) = true /\ exists c0 c1 c2,
+  mapM (convert ms_aut) sel_aut = Ok [Some c0; Some c1; Some c2] /\ in_short F_aut true c0 = false /\ in_short F_aut true c1 = true.
+Proof. exact example_times. Qed.
+Print Assumptions example_times_array_choice.
